@@ -171,6 +171,15 @@ def _partition(ck: Checker) -> None:
                 return t.kind == "test" and isinstance(t.ast, ast.Name) and t.ast.id == nm and lab == "F"
 
             wit = cut(g, [n.id], lit)
+            if wit is not None:
+                # `src_exists = dest_exists` as a default that the source query overrides: what matters is
+                # whether this value can still be current at the return without crossing "not <nm>"
+                from ..an import node_defines, with_flags
+
+                lifted = with_flags(g, lit)
+                onward = g.reach([n.id], skip_node=lambda x, n=n: x.id != n.id and node_defines(x, "src_exists"), skip_edge=lambda a, lab, b: lab == "exc" or lifted(a, lab))
+                if not any(x.kind == "stmt" and isinstance(x.ast, ast.Return) and x.id in onward for x in g.nodes.values()):
+                    wit = None
             ck.require(wit is None, "C12.partition", fn, n,
                        f"source query is skipped only when `{nm}` is false/empty",
                        f"the source store query can be skipped although `{nm}` is set: objects absent from the source are then reported as ok instead of deleted/missing",
